@@ -200,9 +200,14 @@ func genProg(r *Rng, focus string) *Prog {
 	// definitions
 	if focus == "defs" || r.Chance(1, 5) {
 		n := r.Range(1, 4)
+		// the names in a random order: a chain of nested definitions must not depend on how the names sort
+		perm := append([]string{}, defNames...)
+		for a := len(perm) - 1; a > 0; a-- {
+			b := r.Intn(a + 1)
+			perm[a], perm[b] = perm[b], perm[a]
+		}
 		for i := 0; i < n; i++ {
-			nm := defNames[i]
-			g.defNames = append(g.defNames, nm)
+			g.defNames = append(g.defNames, perm[i])
 		}
 		p.feat("definitions")
 	}
